@@ -32,6 +32,13 @@ def gen(c, max_ops=8):
             stmts.append(["zero_mid", a, c.perm(3), c.bool()])
             shapes.append(shapes[a])
             continue
+        if k == 12 and c.chance(1, 3):
+            # three uses of one value whose contributions arrive in a drawn order: through a function, through an index expression that selects
+            # EVERY entry (a sparse contribution covering the whole value), and passed through unchanged; sums share cotangent objects
+            a = pick()
+            stmts.append(["widx", a, c.int(0, 2), c.perm(3)])
+            shapes.append(shapes[a])
+            continue
         if k == 12:
             # b = sin(a); d = a + b (one cotangent object for a and b); c_ = b[i] (indexed use of b); result c_ + d or d + c_
             a = pick()
@@ -53,7 +60,7 @@ def gen(c, max_ops=8):
         elif k == 6:  # scale by constant / add constant (pass-through style rules)
             a = pick()
             # (zero_mul / saturated_max: results whose cotangent contribution to `a` is an exactly-zero array)
-            stmts.append(["k", c.choice(["addc", "mulc", "reshape_same", "subc_left", "zero_mul", "saturated_max", "half_max"]), a])
+            stmts.append(["k", c.choice(["addc", "mulc", "reshape_same", "subc_left", "zero_mul", "saturated_max", "half_max", "idx_ellipsis", "idx_colon", "idx_colon_ellipsis"]), a])
             shapes.append(shapes[a])
         elif k == 7:  # indexing (sparse contribution) followed by padding back via multiplication with a mask-free broadcast
             a = pick()
@@ -113,7 +120,8 @@ def _const(shape, k):
     return (0.4 + 0.15 * ((onp.arange(n) * (k + 3)) % 7)).reshape(shape)
 
 
-def run(prog, x, ns):
+def run(prog, x, ns, raw=False):
+    """raw: a single selected output is returned as it is (not ravelled, not scaled), so that the caller's cotangent reaches its operation directly."""
     vals = [x]
     for st in prog["stmts"]:
         t = st[0]
@@ -154,6 +162,12 @@ def run(prog, x, ns):
                 r = ns.maximum(a, 1.0e6) * 1.0e-6
             elif name == "half_max":
                 r = ns.maximum(a, 0.137)  # some entries pass, others are clamped (a tie has probability zero on the value grid)
+            elif name == "idx_ellipsis":  # an index expression that selects every entry once: a sparse contribution covering the whole value
+                r = a[...]
+            elif name == "idx_colon":
+                r = a[:] if len(onp.shape(a) if not hasattr(a, "shape") else a.shape) else a[...]
+            elif name == "idx_colon_ellipsis":
+                r = a[:, ...] if len(onp.shape(a) if not hasattr(a, "shape") else a.shape) else a[...]
             else:
                 r = ns.reshape(a, onp.shape(a))
         elif t == "idx":
@@ -170,6 +184,13 @@ def run(prog, x, ns):
             d = a + b
             c_ = b[st[2]]
             r = (c_ + d) if st[3] else (d + c_)
+        elif t == "widx":
+            a = vals[st[1]]
+            nd_ = len(onp.shape(a) if not hasattr(a, "shape") else a.shape)
+            whole = [a[...], a[:] if nd_ else a[...], a[:, ...] if nd_ else a[...]][st[2]]
+            terms = [ns.sin(a), whole, a]
+            t0, t1, t2 = (terms[w] for w in st[3])
+            r = (t0 + t1) + t2
         elif t == "zero_mid":
             a = vals[st[1]]
             z = ns.cos(a)
@@ -190,5 +211,7 @@ def run(prog, x, ns):
             raise KeyError(t)
         vals.append(r)
     outs = [vals[i] for i in prog["out"]]
+    if raw and len(outs) == 1:
+        return outs[0]
     parts = [ns.ravel(o) * (1.0 + 0.5 * j) for j, o in enumerate(outs)]
     return ns.concatenate(parts) if len(parts) > 1 else parts[0]
